@@ -1,5 +1,6 @@
 """C12 clean removes exactly what the last build created."""
 from .hist import run_history, U_C
+from .skeletons import UN3
 
 LEVEL = 'model_checking'
 BUDGET_S = {'quick': 120, 'thorough': 1200}
@@ -25,6 +26,7 @@ def families(tier):
         {'name': 'A4', 'params': dict(base, hist='BMC', kinds=['is_dir'], roles=['o'], targets=['o/d/g'],
                                       modes=['ok', 'raise_after'], mut_paths=mp), 'weight': 2},
     ]
+    q.append({'name': 'N3', 'params': dict(base, hist='BBC', universe=['c'] + UN3, kinds=['is_dir'], roles=['o']), 'weight': 3})
     if tier == 'quick':
         return q
     return q + [
